@@ -1237,8 +1237,8 @@ result_t NumberDataType::parseInput(const string inputStr, unsigned int* parsedV
         }
       } else {
         double dvalue = strtod(str, &strEnd);
-        if (errno == ERANGE || strEnd == nullptr || strEnd == str || *strEnd != 0) {
-          return RESULT_ERR_INVALID_NUM;  // invalid value
+        if (errno == ERANGE || strEnd == nullptr || strEnd == str || *strEnd != 0 || dvalue != dvalue) {
+          return RESULT_ERR_INVALID_NUM;  // invalid value (including NaN)
         }
         if (m_divisor < 0) {
           dvalue = round(dvalue / -m_divisor);
